@@ -1,4 +1,4 @@
-"""C17: integer + - * negation ++/-- are lane-wise two's-complement."""
+"""C17: conversions between vector types preserve every lane value (sign/zero extension, truncation, float<->int)."""
 import common
 import runner
 
@@ -23,8 +23,7 @@ def run(tier, a=None):
     cfgs = select_cfgs(tier, a)
     runner.run_families(res, cfgs, ["convert"], type_filter(a))
     res.trusted = ["clang 14 front end and -O2 pipeline preserve the meaning of UB-free executions",
-                   "LLVM LangRef: add/sub/mul without nsw/nuw are arithmetic modulo 2^n per lane"]
-    return common.finish(res, explanation="every integer vector type x configuration x "
-                         "{+,-,*,unary -,++,--, compound forms}: optimised IR summarised into a "
-                         "closed form and compared with add/sub/mul modulo 2^bits on the same lane",
+                   "LLVM LangRef semantics of the IR instructions; Intel SDM semantics of the x86 intrinsics as modelled in spec/isa.py",
+                   "the term normaliser, the exact IEEE evaluator (lib/fpeval.py) and the abstract interpreter (lib/absint.py, self-tested against the concrete evaluator)"]
+    return common.finish(res, explanation="every ordered pair of vector types with a convert<> / converting constructor x configuration: optimised IR summarised into a closed form and compared lane by lane with the C++ conversion of the element (sign extension iff the source is signed, truncation modulo 2^bits, int->float in the current rounding mode, float->int truncation, mask conversions lane-true to lane-true); result lanes beyond the source's lane count must be zero",
                          write_floor=getattr(a, "write_floor", False))
